@@ -250,6 +250,7 @@ func checkC16(w *World, r *Report) {
 	c16Consistent(w, r, signer, cl)
 	c16HeaderClaims(w, r, signer)
 	c16PublicOnly(w, r)
+	c16HandedOutNotMutated(w, r)
 }
 
 func c16SystemClaims(w *World, r *Report, signer *types.Named) {
@@ -754,4 +755,118 @@ func c16PublicOnly(w *World, r *Report) {
 	if !found {
 		r.Undecided(ri, "the JWKS endpoint was not found")
 	}
+}
+
+// ---- C16.6: what a key holder hands out is not modified by its consumers -------------------------------
+//
+// Keys() and Certificates() of the signers return slices that share their backing array with the
+// published key material (the certificate chain of the JWK in the key set). A consumer that sorts,
+// reverses, compacts or overwrites such a slice in place changes the published key set: the x5c
+// chain no longer starts with the certificate of the key and verifiers reject it. Decided at every
+// call of Keys()/Certificates() through the two interfaces (keyholder.KeyHolder,
+// certificate.Supplier): the result reaches no in-place mutator and no element store.
+func c16HandedOutNotMutated(w *World, r *Report) {
+	ri := r.Rule("C16.6", 2, "the keys and certificate chains handed out by a key holder are not modified in place by a consumer (no sort, reverse, compact, copy-into or element store on the returned slice)")
+	ifaces := []*types.Interface{w.Iface("internal/keyholder", "KeyHolder"), w.Iface("internal/otel/metrics/certificate", "Supplier")}
+	isHandOut := func(c *ssa.CallCommon) bool {
+		if !c.IsInvoke() {
+			return false
+		}
+		if c.Method.Name() != "Keys" && c.Method.Name() != "Certificates" {
+			return false
+		}
+		for _, it := range ifaces {
+			if it != nil && types.Identical(c.Value.Type().Underlying(), it) {
+				return true
+			}
+		}
+		return false
+	}
+	n := 0
+	for _, fn := range w.Funcs {
+		if w.isMockFn(fn) || fn.Blocks == nil {
+			continue
+		}
+		for _, hc := range findCalls(fn, isHandOut) {
+			n++
+			var hv ssa.Value = hc
+			r.Analysed(w.FnName(fn))
+			ok, msg, pos := true, "", hc.Pos()
+			from := func(v ssa.Value) bool {
+				return hv != nil && dependsOnNoCopy(w, v, hv)
+			}
+			for _, g := range withClosures(fn) {
+				eachInstr(g, func(in ssa.Instruction) {
+					switch x := in.(type) {
+					case ssa.CallInstruction:
+						nm := callName(x.Common())
+						if isInPlaceMutator(nm) && len(x.Common().Args) > 0 && from(x.Common().Args[0]) {
+							ok, msg, pos = false, nm+" modifies the slice returned by "+hc.Common().Method.Name()+"() in place", x.Pos()
+						}
+					case *ssa.Store:
+						if ia, isIA := x.Addr.(*ssa.IndexAddr); isIA && from(ia.X) {
+							ok, msg, pos = false, "an element of the slice returned by "+hc.Common().Method.Name()+"() is overwritten", x.Pos()
+						}
+					}
+				})
+			}
+			r.Ob(ri, fmt.Sprintf("%s|%s-result-not-mutated", w.FnName(fn), hc.Common().Method.Name()), pos, ok, msg+": the slice shares its memory with the key material published at the JWKS endpoint (x5c chain order, key list)")
+		}
+	}
+	if n == 0 {
+		r.Undecided(ri, "no consumer of KeyHolder.Keys / Supplier.Certificates found")
+	}
+}
+
+// dependsOnNoCopy: v is (a reslice / phi / conversion of) the value src itself - not a copy of it
+// (slices.Clone, append to a fresh slice).
+func dependsOnNoCopy(w *World, v, src ssa.Value) bool {
+	seen := map[ssa.Value]bool{}
+	var walk func(x ssa.Value, d int) bool
+	walk = func(x ssa.Value, d int) bool {
+		if x == nil || seen[x] || d > 12 {
+			return false
+		}
+		seen[x] = true
+		if x == src {
+			return true
+		}
+		switch y := x.(type) {
+		case *ssa.Phi:
+			for _, e := range y.Edges {
+				if walk(e, d+1) {
+					return true
+				}
+			}
+		case *ssa.Slice:
+			return walk(y.X, d+1)
+		case *ssa.ChangeType:
+			return walk(y.X, d+1)
+		case *ssa.UnOp:
+			if y.Op == token.MUL {
+				if al, ok := y.X.(*ssa.Alloc); ok {
+					found := false
+					w.eachStore(al, func(st *ssa.Store) {
+						if walk(st.Val, d+1) {
+							found = true
+						}
+					})
+					return found
+				}
+				if fv, ok := y.X.(*ssa.FreeVar); ok {
+					if b, ok := freeVarBinding(fv).(*ssa.Alloc); ok {
+						found := false
+						w.eachStore(b, func(st *ssa.Store) {
+							if walk(st.Val, d+1) {
+								found = true
+							}
+						})
+						return found
+					}
+				}
+			}
+		}
+		return false
+	}
+	return walk(v, 0)
 }
